@@ -87,18 +87,27 @@ func (p editProc) PostProcess(nodes []*html.Node) error { return p.run(nodes) }
 // of a front-matter value observable.
 var testFuncs = vuego.FuncMap{"times3": func(n int) int { return n * 3 }}
 
-func newRoot(fs iofs.FS, proc string) vuego.Template {
-	if proc == procNone {
-		return vuego.NewFS(fs, vuego.WithFuncs(testFuncs))
+func newRoot(fs iofs.FS, proc string, comps bool) vuego.Template {
+	opts := []vuego.LoadOption{vuego.WithFuncs(testFuncs)}
+	if comps {
+		// scans components/ of the filesystem at construction (components/Badge.vuego -> <badge>)
+		opts = append(opts, vuego.WithComponents())
 	}
-	if proc == procLess {
-		return vuego.NewFS(fs, vuego.WithFuncs(testFuncs), vuego.WithLessProcessor())
+	switch proc {
+	case procNone:
+	case procLess:
+		opts = append(opts, vuego.WithLessProcessor())
+	default:
+		opts = append(opts, vuego.WithProcessor(editProc{proc}))
 	}
-	return vuego.NewFS(fs, vuego.WithFuncs(testFuncs), vuego.WithProcessor(editProc{proc}))
+	return vuego.NewFS(fs, opts...)
 }
 
-func newVue(fs iofs.FS, proc string) *vuego.Vue {
+func newVue(fs iofs.FS, proc string, comps bool) *vuego.Vue {
 	v := vuego.NewVue(fs).Funcs(testFuncs)
+	if comps {
+		v.RegisterComponent("badge", fBadge)
+	}
 	if proc == procLess {
 		return v.RegisterNodeProcessor(vuego.NewLessProcessor(fs))
 	}
